@@ -29,7 +29,7 @@ template<class S> Mat<S,3,3> Rq(const Mat<S,4,1>& q){
   return R; }
 template<class S> Mat<S,3,3> skew3(const Mat<S,3,1>& v){ Mat<S,3,3> m; S z(0.0); m<<z,-v(2),v(1), v(2),z,-v(0), -v(1),v(0),z; return m; }
 
-struct SO2t { enum{A=2}; template<class S,class X> static Mat<S,A> alg(const X& t){ Mat<S,A> m=hat<S>(t).template topLeftCorner<A,A>(); return m; } static const char* nm(){return "SO2";} enum{H=3,P=2,DoF=1,Rep=2};
+struct SO2t { template<class S,class X> static S rotsq(const X& t){ return t.coeffs()(0)*t.coeffs()(0); } enum{A=2}; template<class S,class X> static Mat<S,A> alg(const X& t){ Mat<S,A> m=hat<S>(t).template topLeftCorner<A,A>(); return m; } static const char* nm(){return "SO2";} enum{H=3,P=2,DoF=1,Rep=2};
   template<class S> using G=manif::SO2<S>; template<class S> using T=manif::SO2Tangent<S>;
   template<class R> static G<typename R::S> make(R& rec,const std::string& p,int w){ auto c=unitc(rec,p,w); return G<typename R::S>(c(0),c(1)); }
   template<class R> static T<typename R::S> maket(R& rec,const std::string& p,int w){ return T<typename R::S>(rec.var(p+"th",WW[w][0])); }
@@ -38,7 +38,7 @@ struct SO2t { enum{A=2}; template<class S,class X> static Mat<S,A> alg(const X& 
   template<class S> static Mat<S,H,1> hom(const Mat<S,P,1>& p){ Mat<S,H,1> h; h<<p(0),p(1),S(1.0); return h; }
   static int nrot(){return 1;} // rotation-part kind: 1 complex, 2 quaternion, 0 none
 };
-struct SE2t { enum{A=3}; template<class S,class X> static Mat<S,A> alg(const X& t){ Mat<S,A> m=hat<S>(t).template topLeftCorner<A,A>(); return m; } static const char* nm(){return "SE2";} enum{H=3,P=2,DoF=3,Rep=4};
+struct SE2t { template<class S,class X> static S rotsq(const X& t){ return t.coeffs()(2)*t.coeffs()(2); } enum{A=3}; template<class S,class X> static Mat<S,A> alg(const X& t){ Mat<S,A> m=hat<S>(t).template topLeftCorner<A,A>(); return m; } static const char* nm(){return "SE2";} enum{H=3,P=2,DoF=3,Rep=4};
   template<class S> using G=manif::SE2<S>; template<class S> using T=manif::SE2Tangent<S>;
   template<class R> static G<typename R::S> make(R& rec,const std::string& p,int w){ typedef typename R::S S; S x=rec.var(p+"x",WV[w][0]),y=rec.var(p+"y",WV[w][1]); auto c=unitc(rec,p,w); return G<S>(x,y,c(0),c(1)); }
   template<class R> static T<typename R::S> maket(R& rec,const std::string& p,int w){ typedef typename R::S S; return T<S>(rec.var(p+"x",WV[w][0]),rec.var(p+"y",WV[w][1]),rec.var(p+"th",WW[w][0])); }
@@ -46,7 +46,7 @@ struct SE2t { enum{A=3}; template<class S,class X> static Mat<S,A> alg(const X& 
   template<class S,class X> static Mat<S,H> hat(const X& t){ S z(0.0); auto&c=t.coeffs(); Mat<S,H> m; m<<z,-c(2),c(0), c(2),z,c(1), z,z,z; return m; }
   template<class S> static Mat<S,H,1> hom(const Mat<S,P,1>& p){ Mat<S,H,1> h; h<<p(0),p(1),S(1.0); return h; }
 };
-struct SO3t { enum{A=3}; template<class S,class X> static Mat<S,A> alg(const X& t){ Mat<S,A> m=hat<S>(t).template topLeftCorner<A,A>(); return m; } static const char* nm(){return "SO3";} enum{H=4,P=3,DoF=3,Rep=4};
+struct SO3t { template<class S,class X> static S rotsq(const X& t){ return t.coeffs().squaredNorm(); } enum{A=3}; template<class S,class X> static Mat<S,A> alg(const X& t){ Mat<S,A> m=hat<S>(t).template topLeftCorner<A,A>(); return m; } static const char* nm(){return "SO3";} enum{H=4,P=3,DoF=3,Rep=4};
   template<class S> using G=manif::SO3<S>; template<class S> using T=manif::SO3Tangent<S>;
   template<class R> static G<typename R::S> make(R& rec,const std::string& p,int w){ typedef typename R::S S; Mat<S,4,1> q=unitq(rec,p,w); return G<S>(q); }
   template<class R> static T<typename R::S> maket(R& rec,const std::string& p,int w){ typedef typename R::S S; Mat<S,3,1> v=vec3(rec,p+"w",WW[w]); return T<S>(v); }
@@ -54,7 +54,7 @@ struct SO3t { enum{A=3}; template<class S,class X> static Mat<S,A> alg(const X& 
   template<class S,class X> static Mat<S,H> hat(const X& t){ Mat<S,H> m=Mat<S,H>::Zero(); Mat<S,3,1> w=t.coeffs(); m.template topLeftCorner<3,3>()=skew3<S>(w); return m; }
   template<class S> static Mat<S,H,1> hom(const Mat<S,P,1>& p){ Mat<S,H,1> h; h<<p(0),p(1),p(2),S(1.0); return h; }
 };
-struct SE3t { enum{A=4}; template<class S,class X> static Mat<S,A> alg(const X& t){ Mat<S,A> m=hat<S>(t).template topLeftCorner<A,A>(); return m; } static const char* nm(){return "SE3";} enum{H=4,P=3,DoF=6,Rep=7};
+struct SE3t { template<class S,class X> static S rotsq(const X& t){ return t.coeffs().template tail<3>().squaredNorm(); } enum{A=4}; template<class S,class X> static Mat<S,A> alg(const X& t){ Mat<S,A> m=hat<S>(t).template topLeftCorner<A,A>(); return m; } static const char* nm(){return "SE3";} enum{H=4,P=3,DoF=6,Rep=7};
   template<class S> using G=manif::SE3<S>; template<class S> using T=manif::SE3Tangent<S>;
   template<class R> static G<typename R::S> make(R& rec,const std::string& p,int w){ typedef typename R::S S; Mat<S,7,1> c; c.template head<3>()=vec3(rec,p,WV[w]); c.template tail<4>()=unitq(rec,p,w); return G<S>(c); }
   template<class R> static T<typename R::S> maket(R& rec,const std::string& p,int w){ typedef typename R::S S; Mat<S,6,1> c; c.template head<3>()=vec3(rec,p+"v",WV[w]); c.template tail<3>()=vec3(rec,p+"w",WW[w]); return T<S>(c); }
@@ -62,7 +62,7 @@ struct SE3t { enum{A=4}; template<class S,class X> static Mat<S,A> alg(const X& 
   template<class S,class X> static Mat<S,H> hat(const X& t){ Mat<S,H> m=Mat<S,H>::Zero(); auto&c=t.coeffs(); Mat<S,3,1> w=c.template tail<3>(); m.template topLeftCorner<3,3>()=skew3<S>(w); m.template topRightCorner<3,1>()=c.template head<3>(); return m; }
   template<class S> static Mat<S,H,1> hom(const Mat<S,P,1>& p){ Mat<S,H,1> h; h<<p(0),p(1),p(2),S(1.0); return h; }
 };
-struct SE23t { enum{A=5}; template<class S,class X> static Mat<S,A> alg(const X& t){ Mat<S,A> m=hat<S>(t).template topLeftCorner<A,A>(); return m; } static const char* nm(){return "SE_2_3";} enum{H=5,P=3,DoF=9,Rep=10};
+struct SE23t { template<class S,class X> static S rotsq(const X& t){ return t.coeffs().template segment<3>(3).squaredNorm(); } enum{A=5}; template<class S,class X> static Mat<S,A> alg(const X& t){ Mat<S,A> m=hat<S>(t).template topLeftCorner<A,A>(); return m; } static const char* nm(){return "SE_2_3";} enum{H=5,P=3,DoF=9,Rep=10};
   template<class S> using G=manif::SE_2_3<S>; template<class S> using T=manif::SE_2_3Tangent<S>;
   template<class R> static G<typename R::S> make(R& rec,const std::string& p,int w){ typedef typename R::S S; Mat<S,10,1> c; c.template head<3>()=vec3(rec,p,WV[w]); c.template segment<4>(3)=unitq(rec,p,w); c.template tail<3>()=vec3(rec,p+"v",WV[(w+1)%4]); return G<S>(c); }
   template<class R> static T<typename R::S> maket(R& rec,const std::string& p,int w){ typedef typename R::S S; Mat<S,9,1> c; c.template head<3>()=vec3(rec,p+"v",WV[w]); c.template segment<3>(3)=vec3(rec,p+"w",WW[w]); c.template tail<3>()=vec3(rec,p+"a",WV[(w+2)%4]); return T<S>(c); }
@@ -70,7 +70,7 @@ struct SE23t { enum{A=5}; template<class S,class X> static Mat<S,A> alg(const X&
   template<class S,class X> static Mat<S,H> hat(const X& t){ Mat<S,H> m=Mat<S,H>::Zero(); auto&c=t.coeffs(); Mat<S,3,1> w=c.template segment<3>(3); m.template topLeftCorner<3,3>()=skew3<S>(w); m.template block<3,1>(0,3)=c.template head<3>(); m.template block<3,1>(0,4)=c.template tail<3>(); return m; }
   template<class S> static Mat<S,H,1> hom(const Mat<S,P,1>& p){ Mat<S,H,1> h; h<<p(0),p(1),p(2),S(1.0),S(0.0); return h; }
 };
-struct SGal3t { enum{A=5}; template<class S,class X> static Mat<S,A> alg(const X& t){ Mat<S,A> m=hat<S>(t).template topLeftCorner<A,A>(); return m; } static const char* nm(){return "SGal3";} enum{H=5,P=3,DoF=10,Rep=11};
+struct SGal3t { template<class S,class X> static S rotsq(const X& t){ return t.coeffs().template segment<3>(6).squaredNorm(); } enum{A=5}; template<class S,class X> static Mat<S,A> alg(const X& t){ Mat<S,A> m=hat<S>(t).template topLeftCorner<A,A>(); return m; } static const char* nm(){return "SGal3";} enum{H=5,P=3,DoF=10,Rep=11};
   template<class S> using G=manif::SGal3<S>; template<class S> using T=manif::SGal3Tangent<S>;
   template<class R> static G<typename R::S> make(R& rec,const std::string& p,int w){ typedef typename R::S S; Mat<S,11,1> c; c.template head<3>()=vec3(rec,p,WV[w]); c.template segment<4>(3)=unitq(rec,p,w); c.template segment<3>(7)=vec3(rec,p+"v",WV[(w+1)%4]); c(10)=rec.var(p+"t",0.7+0.4*w); return G<S>(c); }
   template<class R> static T<typename R::S> maket(R& rec,const std::string& p,int w){ typedef typename R::S S; Mat<S,10,1> c; c.template head<3>()=vec3(rec,p+"p",WV[w]); c.template segment<3>(3)=vec3(rec,p+"v",WV[(w+2)%4]); c.template segment<3>(6)=vec3(rec,p+"w",WW[w]); c(9)=rec.var(p+"s",0.7-0.3*w); return T<S>(c); }
@@ -78,7 +78,7 @@ struct SGal3t { enum{A=5}; template<class S,class X> static Mat<S,A> alg(const X
   template<class S,class X> static Mat<S,H> hat(const X& t){ Mat<S,H> m=Mat<S,H>::Zero(); auto&c=t.coeffs(); Mat<S,3,1> w=c.template segment<3>(6); m.template topLeftCorner<3,3>()=skew3<S>(w); m.template block<3,1>(0,3)=c.template segment<3>(3); m.template block<3,1>(0,4)=c.template head<3>(); m(3,4)=c(9); return m; }
   template<class S> static Mat<S,H,1> hom(const Mat<S,P,1>& p){ Mat<S,H,1> h; h<<p(0),p(1),p(2),S(0.0),S(1.0); return h; }
 };
-template<int N> struct Rnt { enum{A=N+1}; template<class S,class X> static Mat<S,A> alg(const X& t){ return hat<S>(t); } static const char* nm(){ static std::string s="R"+std::to_string(N); return s.c_str(); } enum{H=N+1,P=N,DoF=N,Rep=N};
+template<int N> struct Rnt { template<class S,class X> static S rotsq(const X&){ return S(0.0); } enum{A=N+1}; template<class S,class X> static Mat<S,A> alg(const X& t){ return hat<S>(t); } static const char* nm(){ static std::string s="R"+std::to_string(N); return s.c_str(); } enum{H=N+1,P=N,DoF=N,Rep=N};
   template<class S> using G=manif::Rn<S,N>; template<class S> using T=manif::RnTangent<S,N>;
   template<class R> static G<typename R::S> make(R& rec,const std::string& p,int w){ typedef typename R::S S; Mat<S,N,1> c; for(int i=0;i<N;i++) c(i)=rec.var(p+"x"+std::to_string(i),WV[w][i%3]+0.125*i); return G<S>(c); }
   template<class R> static T<typename R::S> maket(R& rec,const std::string& p,int w){ typedef typename R::S S; Mat<S,N,1> c; for(int i=0;i<N;i++) c(i)=rec.var(p+"t"+std::to_string(i),WW[w][i%3]-0.25*i); return T<S>(c); }
@@ -89,4 +89,6 @@ template<int N> struct Rnt { enum{A=N+1}; template<class S,class X> static Mat<S
 typedef Rnt<1> R1t; typedef Rnt<3> R3t; typedef Rnt<5> R5t;
 
 template<class R,int N> Mat<typename R::S,N,1> vecn(R& rec,const std::string& p,int w){ Mat<typename R::S,N,1> v; for(int i=0;i<N;i++) v(i)=rec.var(p+std::to_string(i), WV[w][i%3]*(1+i/3)); return v; }
+// hypothesis: rotation magnitude of a tangent below pi (injectivity radius / the property's stated domain)
+template<class Tg,class R,class T> void assume_rot_below_pi(R& rec, const T& t){ typedef typename R::S S; S r=Tg::template rotsq<S>(t); if(!(Tg::DoF==Tg::P && Tg::H==Tg::P+1 && Tg::Rep==Tg::P)) rec.assume(r, 0, S(9.869604)); } // 9.869604 < pi^2
 } // namespace gx
